@@ -205,6 +205,7 @@ type routingCase struct {
 	Filter   bool       `json:"filter"`
 	Longhand bool       `json:"longhand,omitempty"` // routes declared with Method(m).Path(p)
 	Options  bool       `json:"options_filter,omitempty"`
+	Switched bool       `json:"router_switched_first,omitempty"` // the other router was configured first
 	Tier     string     `json:"tier,omitempty"`
 	Lite     bool       `json:"lite,omitempty"`
 	ReqIndex int        `json:"req_index,omitempty"` // position of Req in the sweep's request list (history replay)
@@ -227,7 +228,7 @@ func replayRouting(oracle func(rc routingCase, o rs.Outcome) error) replayFn {
 			return err
 		}
 		rs.Quiet(false)
-		b := rs.Build(rc.Table, rs.BuildOpt{Router: routerOf(rc.Router), Filter: rc.Filter, Longhand: rc.Longhand, Options: rc.Options})
+		b := rs.Build(rc.Table, rs.BuildOpt{Router: routerOf(rc.Router), Filter: rc.Filter, Longhand: rc.Longhand, Options: rc.Options, Switched: rc.Switched})
 		if b.Panic != "" {
 			return fmt.Errorf("container construction panics: %s", b.Panic)
 		}
@@ -239,7 +240,7 @@ func replayRouting(oracle func(rc routingCase, o rs.Outcome) error) replayFn {
 		// not reproduced alone: replay the sweep's requests that preceded it on a fresh container
 		for _, sp := range routingSweeps(routerOf(rc.Router), rc.Tier, rc.Lite) {
 			if sp.Name == rc.Sweep && rc.ReqIndex < len(sp.Reqs) {
-				b := rs.Build(rc.Table, rs.BuildOpt{Router: routerOf(rc.Router), Filter: rc.Filter, Longhand: rc.Longhand, Options: rc.Options})
+				b := rs.Build(rc.Table, rs.BuildOpt{Router: routerOf(rc.Router), Filter: rc.Filter, Longhand: rc.Longhand, Options: rc.Options, Switched: rc.Switched})
 				for k := 0; k <= rc.ReqIndex; k++ {
 					o = b.Do(sp.Reqs[k].HTTP(), h.NewRec(), rc.Serve)
 				}
